@@ -197,6 +197,13 @@ func genC07(r *hx.Rand, idx int) *hx.Case {
 	return &hx.Case{Name: fmt.Sprintf("c07-%d", idx), Params: params, Ops: ops}
 }
 
+// netWait bounds every wait of the scheduler for an event that MUST happen (a parked task reaching its next hook point, a
+// read finishing or parking). It is not a synchronisation device: every recorded observation is ordered after the event
+// by a channel handoff. Its expiry means the system under test is wedged (deadlock / a task died between hook points
+// where no detection exists) and is reported as an engine error, never as an observation; it is far above any scheduling
+// delay under load and below hx's 180 s no-progress detector so that the message names the missing event.
+const netWait = 120 * time.Second
+
 type sched struct {
 	db           *dkv.DB
 	arrive       map[string]chan struct{}
@@ -219,6 +226,7 @@ type sched struct {
 	failedTasks  int  // compaction tasks that ended with a (fault-induced) error
 	gateHolder   string // "F" / "C": the task whose table Save is parked at the gate
 	c1Idx        int    // position in acts of the OC1 whose change set is filled in when it is applied
+	taskSentinel chan struct{} // signalled by a function queued right behind the running compaction task
 }
 
 var hookNames = []string{"dkv.flush.begin", "dkv.flush.swap", "dkv.flush.end", "dkv.compact.begin", "dkv.compact.iter",
@@ -231,7 +239,7 @@ func (s *sched) wait(name string) bool {
 	select {
 	case <-s.arrive[name]:
 		return true
-	case <-time.After(20 * time.Second): // safety net only: a task that never reaches its hook point
+	case <-time.After(netWait): // safety net only: a task that never reaches its hook point
 		s.err = fmt.Errorf("background task did not reach hook point %s", name)
 		return false
 	}
@@ -242,7 +250,7 @@ func (s *sched) rel(name string) {
 	}
 	select {
 	case s.release[name] <- struct{}{}:
-	case <-time.After(20 * time.Second):
+	case <-time.After(netWait):
 		s.err = fmt.Errorf("nobody parked at hook point %s", name)
 	}
 }
@@ -269,7 +277,7 @@ func (s *sched) f1(gate bool) bool {
 			s.tags["flush_save_held"] = true
 		case <-s.arrive["dkv.flush.swap"]:
 			s.fstate = 1
-		case <-time.After(20 * time.Second):
+		case <-time.After(netWait):
 			s.err = fmt.Errorf("flush task reached neither a table Save nor dkv.flush.swap")
 			return false
 		}
@@ -303,15 +311,33 @@ func (s *sched) f2() bool {
 	for s.compPending >= 4 && s.err == nil { // the compaction queue holds 5 functions: make room first
 		s.runCompactionTask()
 	}
+	// the tables the flush installs = the difference of level 0 across its locked swap (the compaction task is parked or
+	// idle; both reads are ordered with the swap by the hook handoffs)
+	before := s.db.VerifC07Tables()
 	s.rel("dkv.flush.swap")
 	if !s.wait("dkv.flush.end") {
 		return false
 	}
+	after := s.db.VerifC07Tables()
 	s.rel("dkv.flush.end")
+	was := map[*sst.Table]bool{}
+	for _, l := range before {
+		for _, t := range l {
+			was[t] = true
+		}
+	}
+	var outs [][]ent
+	if len(after) > 0 {
+		for _, t := range after[0] {
+			if !was[t] {
+				outs = append(outs, tableEntries(t))
+			}
+		}
+	}
 	s.fstate = 0
 	s.compPending++
 	s.swaps++
-	s.emit("OF2", "F2")
+	s.emit("(OF2 "+coqTables(outs)+")", fmt.Sprintf("F2(%d tables)", len(outs)))
 	return true
 }
 
@@ -355,11 +381,43 @@ func (s *sched) startCompTask() bool {
 	return true
 }
 
+// taskEndWatch returns the channels on which the END of the running compaction task is observed when the task does not pass a
+// hook point any more (Compact returned an error): a sentinel function queued directly behind the task on the serial
+// compaction queue (only queued when no other task is pending, so that at most one sentinel sits in the queue), or, when
+// tasks are pending, the next task's dkv.compact.begin, which the serial queue orders after the end of this one.
+func (s *sched) taskEndWatch() (sentinel, nextBegin chan struct{}) {
+	if s.taskSentinel != nil {
+		return s.taskSentinel, nil
+	}
+	if s.compPending == 0 {
+		s.taskSentinel = make(chan struct{}, 1)
+		ch := s.taskSentinel
+		s.db.VerifC07EnqueueCompaction(func() error { ch <- struct{}{}; return nil })
+		return s.taskSentinel, nil
+	}
+	return nil, s.arrive["dkv.compact.begin"]
+}
+
+// taskDied records that the compaction task ended with an error instead of reaching a hook point.
+func (s *sched) taskDied() {
+	s.cstate = 0
+	s.taskSentinel = nil
+	s.failedTasks++
+	if s.ffs.faults.Load() > 0 {
+		s.tags["fault_hit_compact_error"] = true
+	} else {
+		// no fault was injected: the error itself is an observation (code 101)
+		s.tags["compaction_task_error_without_fault"] = true
+		s.emit("OTaskErr", "compaction task ended with an error although no fault was injected")
+	}
+	s.emit("OC1F", "C1:failed")
+}
+
 // releaseGate lets the table Save that is parked at the gate finish.
 func (s *sched) releaseGate() {
 	select {
 	case s.ffs.gateRelease <- struct{}{}:
-	case <-time.After(20 * time.Second):
+	case <-time.After(netWait):
 		s.err = fmt.Errorf("no table Save parked at the gate")
 	}
 	s.gateHolder = ""
@@ -375,6 +433,7 @@ func (s *sched) c1g() bool {
 		return false
 	}
 	s.ffs.faults.Store(0)
+	sentinel, nextBegin := s.taskEndWatch()
 	s.ffs.gateArmed.Store(true)
 	s.rel("dkv.compact.iter")
 	if s.err != nil {
@@ -394,8 +453,14 @@ func (s *sched) c1g() bool {
 	case <-s.arrive["dkv.compact.end"]:
 		s.rel("dkv.compact.end")
 		s.cstate = 0
+		s.taskSentinel = nil
 		s.emit("(OC1 (@None changeset))", "C1:nil")
-	case <-time.After(20 * time.Second):
+	case <-sentinel:
+		s.taskDied()
+	case <-nextBegin:
+		s.beginArrived = true
+		s.taskDied()
+	case <-time.After(netWait):
 		s.err = fmt.Errorf("compaction task reached neither a table Save nor dkv.compact.swap nor dkv.compact.end")
 	}
 	s.ffs.gateArmed.Store(false)
@@ -409,36 +474,21 @@ func (s *sched) c1(fault *fault18) bool {
 	if !s.startCompTask() || s.cstate != 1 {
 		return false
 	}
-	// a read fault on one table while Compact runs; if Compact returns the error the task ends without passing a hook
-	// point: its end is observed through a sentinel on the serial compaction queue (or the start of the next task)
-	var sentinel chan struct{}
-	var nextBegin chan struct{}
+	// a read fault on one table while Compact runs; if Compact returns an error the task ends without passing a hook
+	// point: its end is observed through taskEndWatch (with or without an injected fault)
 	s.ffs.faults.Store(0)
+	sentinel, nextBegin := s.taskEndWatch()
 	if fault != nil {
 		if names := s.db.VerifC07TableNames(); len(names) > 0 {
 			s.ffs.failName = names[((fault.T%len(names))+len(names))%len(names)]
 			s.ffs.failFrom = int64(fault.Off)
-			s.ffs.faults.Store(0)
 			s.ffs.armed.Store(true)
 			s.tags["fault_armed"] = true
-			if s.compPending == 0 {
-				sentinel = make(chan struct{}, 1)
-				ch := sentinel
-				s.db.VerifC07EnqueueCompaction(func() error { ch <- struct{}{}; return nil })
-			} else {
-				nextBegin = s.arrive["dkv.compact.begin"]
-			}
 		}
 	}
 	s.rel("dkv.compact.iter")
 	if s.err != nil {
 		return false
-	}
-	ended := func() {
-		s.cstate = 0
-		s.failedTasks++
-		s.tags["fault_hit_compact_error"] = true
-		s.emit("OC1F", "C1:failed")
 	}
 	ok := true
 	select {
@@ -452,13 +502,14 @@ func (s *sched) c1(fault *fault18) bool {
 	case <-s.arrive["dkv.compact.end"]:
 		s.rel("dkv.compact.end")
 		s.cstate = 0
+		s.taskSentinel = nil
 		s.emit("(OC1 (@None changeset))", "C1:nil")
 	case <-sentinel:
-		ended()
+		s.taskDied()
 	case <-nextBegin:
 		s.beginArrived = true
-		ended()
-	case <-time.After(20 * time.Second):
+		s.taskDied()
+	case <-time.After(netWait):
 		s.err = fmt.Errorf("compaction task reached neither dkv.compact.swap nor dkv.compact.end")
 		ok = false
 	}
@@ -468,15 +519,36 @@ func (s *sched) c1(fault *fault18) bool {
 
 func (s *sched) c2() bool {
 	if s.cstate == 3 && s.err == nil {
+		sentinel, nextBegin := s.taskEndWatch()
 		s.releaseGate()
-		if !s.wait("dkv.compact.swap") {
+		select {
+		case <-s.arrive["dkv.compact.swap"]:
+			s.cstate = 2
+		case <-sentinel: // the held Save (or what follows it) failed: the task is over, its change set is never applied
+			s.acts[s.c1Idx] = "OC1F"
+			s.cstate = 0
+			s.taskSentinel = nil
+			s.failedTasks++
+			s.emit("OTaskErr", "compaction task ended with an error after its held table Save")
+			return false
+		case <-nextBegin:
+			s.beginArrived = true
+			s.acts[s.c1Idx] = "OC1F"
+			s.cstate = 0
+			s.taskSentinel = nil
+			s.failedTasks++
+			s.emit("OTaskErr", "compaction task ended with an error after its held table Save")
+			return false
+		case <-time.After(netWait):
+			s.err = fmt.Errorf("compaction task did not reach dkv.compact.swap after its held table Save was released")
 			return false
 		}
-		s.cstate = 2
 	}
 	if s.cstate != 2 || s.err != nil {
 		return false
 	}
+	// the level list is read while the task is parked in front of the locked swap (the flush task is parked or idle too)
+	// and again after the task arrived at its next hook point: both reads are ordered with the swap by channel handoffs
 	before := s.db.VerifC07Tables()
 	s.rel("dkv.compact.swap")
 	if !s.wait("dkv.compact.iter") {
@@ -673,7 +745,7 @@ func (s *sched) read(scan bool, k []byte, bgs []string) {
 	case <-s.arrive[hook]:
 		parked = true
 	case res = <-done:
-	case <-time.After(20 * time.Second):
+	case <-time.After(netWait):
 		s.err = fmt.Errorf("read neither finished nor parked")
 		return
 	}
@@ -692,7 +764,7 @@ func (s *sched) read(scan bool, k []byte, bgs []string) {
 		s.rel(hook)
 		select {
 		case res = <-done:
-		case <-time.After(20 * time.Second):
+		case <-time.After(netWait):
 			s.err = fmt.Errorf("parked read did not finish")
 			return
 		}
@@ -818,6 +890,15 @@ func execC07(c *hx.Case) (*hx.Result, error) {
 		// unblock whatever is parked so that the package-global queues are free for the next case
 		for _, n := range hookNames {
 			close(s.release[n])
+		}
+		close(s.ffs.gateRelease)
+		// let the goroutines of the database finish before the next case runs in this process (pacing only: the case is
+		// reported as an engine error either way)
+		fin := make(chan struct{})
+		go func() { db.WaitOnTasks(); close(fin) }()
+		select {
+		case <-fin:
+		case <-time.After(30 * time.Second):
 		}
 		return nil, s.err
 	}
